@@ -83,8 +83,9 @@ def genome_pipeline(ctx, replay, prop):
                 jobs.append((p["seed"], p["steps"], p["segs"]))
         jobs = sorted(set(jobs))[:8]
     else:
-        mc = ctx.tlc("MC_GenomeOps", "MC_GenomeOps_thorough.cfg" if thorough else "MC_GenomeOps.cfg", timeout=3000)
-        spec_must_hold(mc, "MC_GenomeOps")
+        for cfg in (["MC_GenomeOps_t1.cfg", "MC_GenomeOps_t2.cfg"] if thorough else ["MC_GenomeOps.cfg"]):
+            mc = ctx.tlc("MC_GenomeOps", cfg, timeout=7000)
+            spec_must_hold(mc, cfg)
         n = 48 if thorough else 6
         steps = 1000 if thorough else 250
         jobs = [(ctx.seed * 1000 + i, steps, 3) for i in range(n)]
@@ -128,8 +129,9 @@ def genome_pipeline(ctx, replay, prop):
 for _p in ("C01", "C03", "C04", "C05", "C06"):
     pipeline(_p)(lambda ctx, replay, _p=_p: genome_pipeline(ctx, replay, _p))
 
-_NOTE = ("Model checking is exhaustive for histories of <= 3 (quick) / 4 (thorough) operator applications from two start genomes "
-         "(<= 6-7 genes, pool <= 4-5). Conformance is by trace validation of seeded random operator histories (quick: 6 traces x 3 "
+_NOTE = ("Model checking is exhaustive for histories of <= 3 operator applications from two start genomes (quick; <= 6 genes, pool <= 4) "
+         "and, thorough, <= 4 applications from the 3-node start genome (pool <= 5, 1.6 M states) plus <= 3 applications with two "
+         "generation boundaries from the 4-node start genome with larger size caps. Conformance is by trace validation of seeded random operator histories (quick: 6 traces x 3 "
          "segments x 250 driver steps; thorough: 48 x 3 x 1000), not exhaustive. Trusted: TLC, the projection of Go objects to "
          "abstract records (harness/cmd/vh_genome/proj.go), float interning.")
 CHECKS = {
